@@ -3,8 +3,9 @@
      the uninstall / replace cset wiring of MergeEngine (engine.py: uninstall_csets,
        replace_csets, get_uninstall_livefs_intersect, get_remove_cset as REPAIRED by
        fixes/C20-1 and fixes/C20-2) and livefs.intersect
-     BaseSystemUnmergeProtection (triggers.py:455) with its list, the two trigger priorities and
-       the ignored errno tuple taken from gen/Tables_C20.v (regenerated from source each run)
+     BaseSystemUnmergeProtection (triggers.py:455) with its list, the schedule of the default
+       triggers (default_plugins_triggers, base.register, MergeEngine.execute_hook) and the ignored
+       errno tuple taken from gen/Tables_C20.v (regenerated from source each run)
    over the abstract filesystem of C18/Fs.v.  Bug-compatible; no proofs here.
 
    Paths: the model root [] is the harness' scratch base directory; the engine offset is a path
@@ -28,6 +29,14 @@ Definition entry := (path * bool)%type.        (* offset-prefixed location, "the
 
 Definition mem_path (p : path) (l : list path) : bool :=
   existsb (fun q => if path_eq_dec p q then true else false) l.
+
+(* Python's str order on code points (fsBase.__lt__, the key of default_plugins_triggers) *)
+Fixpoint str_ltb (a b : str) : bool :=
+  match a, b with
+  | _, [] => false
+  | [], _ :: _ => true
+  | x :: a', y :: b' => if N.ltb x y then true else if N.eqb x y then str_ltb a' b' else false
+  end.
 
 (* ------------------------------------------------------------------ livefs.intersect *)
 (* gen_obj(location) = lstat: Some (canonical path, is-directory); ENOENT / ENOTDIR are skipped *)
@@ -58,26 +67,85 @@ Definition keep_removed (s : fs) (new nc : list path) (e : entry) : bool :=
 Definition remove_cset (s : fs) (old : list entry) (new : list path) : list entry :=
   filter (keep_removed s new (canon_list s new)) old.
 
+(* ------------------------------------------------------------------ which default trigger runs when *)
+Definition trig := (str * Z * list str * option (list N))%type.
+Definition t_name (t : trig) : str := let '(n, _, _, _) := t in n.
+Definition t_prio (t : trig) : Z := let '(_, p, _, _) := t in p.
+Definition t_hooks (t : trig) : list str := let '(_, _, h, _) := t in h.
+Definition t_modes (t : trig) : option (list N) := let '(_, _, _, m) := t in m.
+
+Definition mem_str (x : str) (l : list str) : bool := existsb (str_eqb x) l.
+
+(* default_plugins_triggers(): sorted(triggers, reverse=True, key=(priority, __name__)) *)
+Definition key_ltb (a b : trig) : bool :=
+  Z.ltb (t_prio a) (t_prio b) || (Z.eqb (t_prio a) (t_prio b) && str_ltb (t_name a) (t_name b)).
+Fixpoint insert_reg (x : trig) (l : list trig) : list trig :=
+  match l with
+  | [] => [x]
+  | y :: r => if key_ltb x y then y :: insert_reg x r else x :: l
+  end.
+Definition registration_order : list trig := fold_right insert_reg [] default_triggers.
+
+(* the hooks an engine of that mode has (replace: the union) *)
+Definition mode_hooks (m : N) : list str :=
+  if N.eqb m INSTALL_MODE then install_hooks
+  else if N.eqb m UNINSTALL_MODE then uninstall_hooks
+  else install_hooks ++ uninstall_hooks.
+
+(* base.register: skipped when _engine_types excludes the mode; add_trigger per hook the engine knows *)
+Definition applies (m : N) (t : trig) : bool :=
+  match t_modes t with None => true | Some l => existsb (N.eqb m) l end.
+Definition registered (m : N) (hook : str) : list trig :=
+  if mem_str hook (mode_hooks m)
+  then filter (fun t => applies m t && mem_str hook (t_hooks t)) registration_order
+  else [].
+
+(* execute_hook: sorted(self.hooks[hook], key=priority) - ascending, stable *)
+Fixpoint insert_run (x : trig) (l : list trig) : list trig :=
+  match l with
+  | [] => [x]
+  | y :: r => if Z.leb (t_prio x) (t_prio y) then x :: l else y :: insert_run x r
+  end.
+Definition run_order (m : N) (hook : str) : list trig := fold_right insert_run [] (registered m hook).
+Definition run_names (m : N) (hook : str) : list str := map t_name (run_order m hook).
+
+Fixpoint index_of (x : str) (l : list str) : option nat :=
+  match l with
+  | [] => None
+  | y :: r => if str_eqb x y then Some O else option_map S (index_of x r)
+  end.
+Definition runs_before (a b : str) (l : list str) : bool :=
+  match index_of a l, index_of b l with
+  | Some i, Some j => Nat.ltb i j
+  | _, _ => false
+  end.
+
+Definition engine_modes : list N := [REPLACE_MODE; INSTALL_MODE; UNINSTALL_MODE].
+
+
 (* ------------------------------------------------------------------ BaseSystemUnmergeProtection *)
 (* _block = x.lstrip("/"); pjoin(engine.offset, x), normalised by contentsSet.__contains__ *)
 Definition protected (off : path) : list path :=
   map (fun x => off ++ split_slash x) preserve_sequence.
 
-(* hooks run in ascending priority; with equal priorities `unmerge` is registered first
-   (default_plugins_triggers sorts by (priority, name) descending), so the protection only
-   precedes the removal when its priority is strictly smaller *)
-Definition protect_first : bool := Z.ltb prot_priority unmerge_priority.
+(* the filtering only precedes the removal when, in the engine's `unmerge` hook, the protection
+   trigger runs before the unmerge trigger *)
+Definition protect_first (m : N) : bool :=
+  runs_before name_protection name_unmerge (run_names m name_unmerge).
 
-Definition protect (off : path) (l : list entry) : list entry :=
-  if protect_first then filter (fun e => negb (mem_path (fst e) (protected off))) l else l.
+Definition protect (m : N) (off : path) (l : list entry) : list entry :=
+  if protect_first m then filter (fun e => negb (mem_path (fst e) (protected off))) l else l.
 
 Definition with_off (off : path) (l : list path) : list path := map (app off) l.
+
+Definition engine_mode (i : uinput) : N :=
+  match u_new i with None => UNINSTALL_MODE | Some _ => REPLACE_MODE end.
 
 (* csets["uninstall"] as the `unmerge` trigger sees it *)
 Definition uninstall_cset (i : uinput) : list entry :=
   let s := u_fs i in
   let old := intersect s (with_off (u_off i) (u_old i)) in
-  protect (u_off i)
+  protect (engine_mode i) (u_off i)
     (match u_new i with
      | None => old
      | Some ns => remove_cset s old (with_off (u_off i) ns)
@@ -143,12 +211,6 @@ Fixpoint phase (rm : bool) (stepf : fs -> path -> step) (s : fs) (ps : list path
 
 (* fsBase.__lt__ compares the location strings *)
 Definition loc_str (p : path) : str := concat (map (cons SLASH) p).
-Fixpoint str_ltb (a b : str) : bool :=
-  match a, b with
-  | _, [] => false
-  | [], _ :: _ => true
-  | x :: a', y :: b' => if N.ltb x y then true else if N.eqb x y then str_ltb a' b' else false
-  end.
 Definition loc_ltb (p q : path) : bool := str_ltb (loc_str p) (loc_str q).
 
 (* l.sort(reverse=True) *)
@@ -268,6 +330,9 @@ Definition show_result (s0 : fs) (r : list ev * fs * bool) : str :=
 
 Definition run_case (b : bstr) : val :=
   let i := dec_case b in VS (show_result (u_fs i) (run_engine i)).
+
+(* stream `order`: the class names of the triggers an engine of that mode runs in that hook *)
+Definition run_hook_order (i : N * str) : val := VL (map VS (run_names (fst i) (snd i))).
 
 (* the after-snapshot described by an implementation result string, relative to s0 *)
 Definition result_fs (s0 : fs) (r : val) : option fs :=
